@@ -269,6 +269,52 @@ def null_shard(task):
     return part
 
 
+# ------------------------------------------------- a name that is also the head of a longer dotted name
+def head_programs():
+    """(text, bindings, declarations, expected canonical value, class).  The name x is (a) a macro variable while
+    the outer bindings hold the dotted name x.y, (b) bound to a map while only the longer name x.y is *declared*:
+    the macro variable / the binding is what the reference denotes."""
+    out = []
+    I = lambda n: ("int", n)                                                    # noqa: E731
+    L = lambda *xs: ("list", tuple(xs))                                         # noqa: E731
+    dotted = {"x.y": 5}
+    out.append(("[1, 2].map(x, x)", dotted, None, L(I(1), I(2)), "macro-variable-vs-dotted-binding"))
+    out.append(("[1, 2].filter(x, x > 1)", dotted, None, L(I(2)), "macro-variable-vs-dotted-binding"))
+    out.append(("[1].exists(x, x == 1)", dotted, None, ("bool", True), "macro-variable-vs-dotted-binding"))
+    out.append(("[1].all(x, x == 1)", dotted, None, ("bool", True), "macro-variable-vs-dotted-binding"))
+    out.append(("[1].exists_one(x, x == 1)", dotted, None, ("bool", True), "macro-variable-vs-dotted-binding"))
+    out.append(('[{"y": 2}].map(x, x.y)', dotted, None, L(I(2)), "macro-variable-vs-dotted-binding"))
+    out.append(("[[1]].map(x, x.map(x, x + 1))", dotted, None, L(L(I(2))), "macro-variable-vs-dotted-binding"))
+    out.append(("[1].map(x, x) + [x.y]", dotted, None, L(I(1), I(5)), "macro-variable-vs-dotted-binding"))
+    out.append(("x.y", dotted, None, I(5), "control"))
+    decl = {"x.y": "IntType"}
+    out.append(("x.y", {"x": {"y": 5}}, decl, I(5), "binding-vs-declaration-of-a-longer-name"))
+    out.append(("x.y + 1", {"x": {"y": 5}}, decl, I(6), "binding-vs-declaration-of-a-longer-name"))
+    out.append(("x.z", {"x": {"y": 5, "z": 6}}, decl, I(6), "binding-vs-declaration-of-a-longer-name"))
+    out.append(("x.y", {"x.y": 7}, decl, I(7), "control"))
+    return out
+
+
+def head_shard(task):
+    rk, = task
+    import celpy.celtypes as ct
+    part = runner.Part()
+    n = 0
+    for txt, bind, decl, want, cls in head_programs():
+        ann = None if decl is None else {k: getattr(ct, v) for k, v in decl.items()}
+        o = celrun.Prog(rk, txt, annotations=ann).eval({k: to_cel(v) for k, v in bind.items()})
+        part.case()
+        n += 1
+        part.outcome("head:" + cls)
+        got = (o[1], o[2]) if o[0] == "V" else (ERR if o[0] == "E" else ("X",) + tuple(o[1:]))
+        if got != want:
+            kind = "error-instead-of-value" if got == ERR else ("other-exception" if got[0] == "X" else "wrong-binding")
+            part.violation(kind, f"{rk}:{cls}:{kind}", {"runner": rk, "head_expr": txt, "bindings": bind, "declared": decl, "expected": repr(want)},
+                           f"runner {rk}: {txt!r} with bindings {bind} declarations {decl}: expected {want}, got {outcome.short(o)}")
+    part.space(f"name-is-head-of-a-dotted-name:{rk}", n, n)
+    return part
+
+
 def run(ctx):
     names.selftest()
     ncfg = count_configs(ctx.tier)
@@ -283,11 +329,12 @@ def run(ctx):
         ctx.run_shards(macro_shard, [(rk, lo, hi, ctx.tier) for lo, hi in runner.shards(len(mp), 16)])
         ctx.part.spaces[f"macro-nestings:{rk}"]["cardinality"] = len(mp)
         ctx.run_shards(null_shard, [(rk,)])
+        ctx.run_shards(head_shard, [(rk,)])
     ctx.part.sample({"bindings": build((1, 2, 0, 0, 1, 0, 0, 0, 0)), "package": "p", "references": REFS})
     ctx.part.sample({"macro_programs": [mp[i][0] for i in (0, len(mp) // 2, len(mp) - 1)], "outer_bindings": OUTER})
     ctx.rule = ("(1) every assignment of {absent, scalar, map with the remaining fields} to {a, a.b, a.b.c} x {root, p" + (", p.q} (all 3^9)" if ctx.thorough else "} (3^6) plus every p.q configuration with <= 3 bound names") +
                 " x package {none, p, p.q} x 5 references, as plain bindings (mapping listed shortest-name-first and in the reverse order) and as bindings shadowing declarations of another type; (2) every macro nesting of depth <= 3 with variables from {x, y} "
-                "(colliding and distinct) and bodies over {x, y, z}, also using the variable name after the macro; (3) a name bound to null (outer binding or iteration variable), declared as one of 3 types or undeclared, referenced at macro depth 0..3; cases the resolution model leaves UNSPEC (reference naming a namespace; level mentioning `a` only through non-prefix names) are counted, not compared")
+                "(colliding and distinct) and bodies over {x, y, z}, also using the variable name after the macro; (3) a name bound to null (outer binding or iteration variable), declared as one of 3 types or undeclared, referenced at macro depth 0..3; (4) a name that is a macro variable / a bound map while a longer dotted name with the same head is bound / declared; cases the resolution model leaves UNSPEC (reference naming a namespace; level mentioning `a` only through non-prefix names) are counted, not compared")
     ctx.assumptions = ["dotted paths of at most three components over one root name; integer leaves", "declared-but-unbound names are not judged (the statement does not say what they denote)"]
 
 
@@ -304,6 +351,13 @@ def replay(w):
         want = ERR if exp == ERR else canon(exp)
         got = ERR if o[0] == "E" else ((o[1], o[2]) if o[0] == "V" else None)
         bad = exp is not UNSPEC and got != want
+    elif "head_expr" in wit:
+        import celpy.celtypes as ct
+        ann = None if wit["declared"] is None else {k: getattr(ct, v) for k, v in wit["declared"].items()}
+        o = celrun.Prog(wit["runner"], wit["head_expr"], annotations=ann).eval({k: to_cel(v) for k, v in wit["bindings"].items()})
+        print(wit["head_expr"], "->", outcome.short(o), "expected", wit["expected"])
+        got = (o[1], o[2]) if o[0] == "V" else None
+        bad = repr(got) != wit["expected"]
     elif "null_expr" in wit:
         import celpy.celtypes as ct
         ann = None if wit["declared_as"] is None else {k: getattr(ct, wit["declared_as"]) for k in ("z", "w")}
